@@ -1,7 +1,7 @@
 (* C14 - Records, varints and spilled payloads decode exactly per the file
    format.  Property theorems only; proofs are in Proofs/. *)
 From SQ Require Import Model.Base Model.Varint Model.Record Model.Payload Model.Btree Model.Page Spec.Encode
-     Proofs.BaseP Proofs.VarintP Proofs.RecordP Proofs.PayloadP Proofs.PageP Gen.Arith Proofs.ArithP.
+     Proofs.BaseP Proofs.VarintP Proofs.RecordP Proofs.PayloadP Proofs.PageP Gen.Arith Proofs.ArithP Gen.VarintStep Proofs.VarintStepP.
 
 (* every unsigned 64-bit value, hence all nine varint lengths *)
 Theorem C14_varint : forall v rest, 0 <= v < 2 ^ 64 ->
@@ -193,3 +193,12 @@ Example C14_varint_example :
   map (fun v => read_varint (put_varint v)) [0; 127; 128; 2 ^ 56 - 1; 2 ^ 56; 2 ^ 64 - 1]
   = [Some (0, 1); Some (127, 1); Some (128, 2); Some (2 ^ 56 - 1, 8); Some (2 ^ 56, 9); Some (-1, 9)].
 Proof. vm_compute. reflexivity. Qed.
+
+(* readVarint IS the model's read_varint: Gen/VarintStep.v is one iteration of the source's loop, translated statement by
+   statement on every build (Go's wrapping uint64 arithmetic, <<, | and &, the bounds test before b[i], the special ninth
+   byte); iterated the way `for i := 0; ; i++` iterates it, it ends within nine iterations on every byte string - the
+   source's loop has no bound of its own - and returns the model's answer, (0, -1) where the model says None *)
+Theorem C14_source_varint : forall bs fuel, (9 <= fuel)%nat ->
+  go_rv fuel 0 0 bs = Some (go_varint_result (read_varint bs)).
+Proof. exact go_readVarint_spec. Qed.
+Print Assumptions C14_source_varint.
